@@ -60,6 +60,16 @@ def gen(rng, tier, n):
             keys += ["enter", "enter", "ctrl-c"]
             yield "K|%s|%s|%s" % (",".join(opts), ",".join(enc(i) for i in items), " ".join(enc(k) for k in keys))
             continue
+        if rng.random() < 0.06:
+            # directed: if-non-matched right behind an edit IN THE SAME CHAIN, in the one direction that does not depend on timing:
+            # the new query (yanked back, `zz`) matches nothing, so the count for the current query is 0 from the moment of the
+            # edit on — while the list on screen still shows the previous query's matches until the next heart beat
+            opts = (["multi"] if rng.random() < 0.5 else []) + ["bind=" + enc("ctrl-t:" + rng.choice(
+                ["yank+if-non-matched(abort)+accept", "yank+if-non-matched(abort)", "yank+if-non-matched(accept(nm))+abort"]))]
+            items = [rng.choice(WORDS) for _ in range(rng.choice([1, 2, 3, 5]))]
+            keys = ["z", "z", "ctrl-u"] + (["ctrl-p"] if rng.random() < 0.3 else []) + ["ctrl-t", "enter", "ctrl-c"]
+            yield "K|%s|%s|%s" % (",".join(opts), ",".join(enc(i) for i in items), " ".join(enc(k) for k in keys))
+            continue
         opts = ["multi"] if rng.random() < 0.6 else []
         if rng.random() < 0.4:
             opts.append("pq")
